@@ -124,20 +124,28 @@ def gen_case(rng, calls, nb_prob=0.2, wb_bias=0.25):
     t0 = rng.choice([10**9, 10**9, 10**9, 0, 12345678901234, U64 - 10**8, U64 - 1, U64])
     if call == "connect":
         r = rng.random()
-        first = ({"r": "done"} if r < 0.3 else {"r": "fail", "n": rng.choice([115, 114, 11, 111, 104, 110])} if r < 0.85
-                 else {"r": "wouldblock"})
+        first = ({"r": "done"} if r < 0.3 else {"r": "fail", "n": rng.choice([115, 114, 11, 111, 104, 110, 4])} if r < 0.8
+                 else {"r": "wouldblock"} if r < 0.9 else {"r": "eintr"})
         first["dt"] = str(_dt(rng, lim_ms))
         script = [first]
     elif call in VEC and rng.random() < 0.4:
         script = gen_chain(rng, segs, lim_ms)
     else:
         script = gen_script(rng, segs, lim_ms, call in VEC, wb_bias=wb_bias)
+    interrupted = call == "connect" and (script[0]["r"] == "eintr" or (script[0]["r"] == "fail" and script[0].get("n") == 4))
     nwait = sum(1 for e in script if e["r"] in ("wouldblock",) or (e["r"] == "fail" and e.get("n") in (11, 115, 114)))
+    nwait += 1 if interrupted else 0
     waitfail = []
     if nwait and rng.random() < 0.2:
         waitfail = [rng.random() < 0.5 for _ in range(nwait)]
-    return {"call": call, "nb": rng.random() < nb_prob, "limit_ms": lim_ms, "t0": str(t0), "segs": segs,
+    case = {"call": call, "nb": rng.random() < nb_prob, "limit_ms": lim_ms, "t0": str(t0), "segs": segs,
             "script": script, "waitfail": waitfail}
+    if interrupted:
+        # an interrupted connect made the loop of connect.rs spin for ever before its repair: own child
+        # process with a watchdog, so that a regression shows as "diverged" instead of a hung batch
+        case["isolate"] = True
+        case["timeout_ms"] = 1500
+    return case
 
 
 # ------------------------------------------------------------------------------------ printing
